@@ -20,6 +20,7 @@ from vsc.model.expr_array_subscript_model import ExprArraySubscriptModel
 from vsc.model.expr_bin_model import ExprBinModel
 from vsc.model.expr_fieldref_model import ExprFieldRefModel
 from vsc.model.expr_in_model import ExprInModel
+from vsc.model.expr_range_model import ExprRangeModel
 from vsc.model.expr_literal_model import ExprLiteralModel
 from vsc.model.field_array_model import FieldArrayModel
 from vsc.model.field_model import FieldModel
@@ -373,18 +374,34 @@ class VariableBoundVisitor(ModelVisitor):
                 if lhs_bounds is not None:
                     is_nre_v = IsNonRandExprVisitor()
 
+                    # Bounds are propagated on integers, while the solver compares
+                    # a signed and an unsigned operand as unsigned. The two only 
+                    # agree when no negative value is involved
+                    def is_mixed_sign(x):
+                        if e.lhs.is_signed() == x.is_signed():
+                            return False
+                        return e.lhs.is_signed() or int(x.val()) < 0
+
                     # Confirm that all expressions are non-random
                     is_nre = True
                     for r in e.rhs.rl:
                         if isinstance(r, list):
                             is_nre &= is_nre_v.is_nonrand(r[0])
                             is_nre &= is_nre_v.is_nonrand(r[1])
+                            if is_nre and (is_mixed_sign(r[0]) or is_mixed_sign(r[1])):
+                                is_nre = False
+                        elif isinstance(r, ExprRangeModel):
+                            is_nre &= is_nre_v.is_nonrand(r)
+                            if is_nre and (is_mixed_sign(r.lhs) or is_mixed_sign(r.rhs)):
+                                is_nre = False
                         elif isinstance(r, ExprFieldRefModel):
                             # For now. This is likely a reference
                             # to an array
                             is_nre = False
                         else:
                             is_nre &= is_nre_v.is_nonrand(r)
+                            if is_nre and is_mixed_sign(r):
+                                is_nre = False
                     
                         if not is_nre:
                             break
